@@ -70,7 +70,7 @@ TLC_REPLAY_RE = re.compile(r'^<<"REPLAY", (".*")>>$')
 
 def run_tlc(module, cfg, workdir, workers=8, timeout=1200, simulate=None, seed=None,
             extra_java=None, env_extra=None, depth_first=False, coverage=False,
-            heap="6g", allow_violation=False, defines=None):
+            heap="6g", allow_violation=False, defines=None, depth=None):
     """Run TLC on spec/<module>.tla with spec/<cfg>.  Returns a dict with states,
     distinct, depth, cases (REPLAY lines parsed), violation (None or text), out."""
     os.makedirs(workdir, exist_ok=True)
@@ -91,6 +91,8 @@ def run_tlc(module, cfg, workdir, workers=8, timeout=1200, simulate=None, seed=N
         cmd += ["-coverage", "1"]
     if simulate:
         cmd += ["-simulate", simulate]
+    if depth:
+        cmd += ["-depth", str(depth)]
     if seed is not None:
         cmd += ["-seed", str(seed)]
     cmd += [os.path.join(SPEC, module + ".tla")]
